@@ -831,6 +831,11 @@ class SX:
         results, raises = self.ev_seq(operands, st)
         out = list(raises)
         for vals, s in results:
+            if len(node.ops) == 1 and any(isinstance(v, Conc) and hasattr(v.v, "__pyvc_compare__") for v in vals):
+                # operator overloading by a modelled library object (e.g. SQLAlchemy column expressions)
+                ov = vals[0] if (isinstance(vals[0], Conc) and hasattr(vals[0].v, "__pyvc_compare__")) else vals[1]
+                out.extend(ov.v.__pyvc_compare__(self, node.ops[0], vals[0], vals[1], s, node))
+                continue
             conj = []
             rs = [(s, [])]
             # `in` on Json / implicit exceptions may fork; handle via compare_op returning list
@@ -1062,6 +1067,13 @@ class SX:
             return rs
         if isinstance(f, Conc) and callable(getattr(f.v, "__pyvc_call__", None)):
             return f.v.__pyvc_call__(self, args, kwargs, st, node)
+        if isinstance(f, Val) and isinstance(f.ty, V.Opt):
+            outs = []
+            isn = f.ty.is_none(f.term)
+            if self.feasible(st, isn):
+                outs.append(R(st.fork().assume(isn), None, Exc("TypeError")))
+            st.assume(z3.Not(isn))
+            return outs + self.call(Val(f.ty.inner, f.ty.get(f.term)), args, kwargs, st, node)
         m = self.reg.call_value(self, f, args, kwargs, st, node)
         if m is not None:
             return m
@@ -1683,8 +1695,12 @@ class SX:
         return v
 
     def loop_spec(self, stmt):
-        self.loop_ordinal += 1
-        return self.reg.loop_spec(self, stmt, self.loop_ordinal)
+        # loops are numbered by source order inside the unit (1, 2, ...), independent of the path taken
+        ordn = getattr(self, "loop_ids", {}).get(id(stmt))
+        if ordn is None:
+            self.loop_ordinal += 1
+            ordn = 1000 + self.loop_ordinal
+        return self.reg.loop_spec(self, stmt, ordn)
 
     def eval_spec(self, expr_src, st, extra=None):
         """evaluate a contract expression (string) to a z3 Bool in state st"""
@@ -1775,6 +1791,13 @@ class SX:
                         continue
                     so.st.env[idx] = k
                     head_ghost = dict(so.st.ghost)
+                    for hn, hexpr in (getattr(spec, "head_snap", None) or {}).items():
+                        self.spec_mode += 1
+                        try:
+                            hv = self.ev1(ast.parse(hexpr, mode="eval").body, so.st)
+                        finally:
+                            self.spec_mode -= 1
+                        head_ghost["__local_" + hn] = self.deref(hv, so.st)
                     if spec.iter_post:
                         # snapshot of the locals at the head of this iteration (head_<name> in iteration posts)
                         for nm, vv in list(so.st.env.items()):
@@ -1843,7 +1866,8 @@ class GenClosure:
 
 
 class LoopSpec:
-    def __init__(self, label, invariants=(), index=None, iter_post=(), unroll=False):
+    def __init__(self, label, invariants=(), index=None, iter_post=(), unroll=False, head_snap=None):
+        self.head_snap = head_snap or {}
         self.label = label
         self.invariants = list(invariants)
         self.index = index
